@@ -187,20 +187,29 @@ def gen_for(pid: str, index: int, seed: int, tier: str) -> dict:
     P = dict(EMPHASIS.get(pid, {}))
     if tier == "thorough" and index % 5 == 4:
         P.update({"n_trans": (3, 7), "n_meth": (3, 8), "max_depth": 3, "max_chains": 300})
+    IK, AK = designgen.INJECT_KINDS, designgen.ACCEPT_KINDS
+    r = index % 12
+    q = index // 12
     if pid == "C11":
-        r = index % 10
-        if r < 6:
-            d = designgen.gen_injected(rng, P, designgen.INJECT_KINDS[r])
-        elif r < 8:
-            d = designgen.gen_accept_case(rng, P, designgen.ACCEPT_KINDS[(index // 10 * 2 + r) % 4])
+        if r < 8:
+            d = designgen.gen_injected(rng, P, IK[r])
+        elif r < 10:
+            d = designgen.gen_accept_case(rng, P, AK[(q * 2 + r) % len(AK)])
         else:
             d = designgen.gen_valid(rng, P)
     else:
-        r = index % 12
-        if r == 10:
-            d = designgen.gen_accept_case(rng, P, designgen.ACCEPT_KINDS[(index // 12) % 4])
+        # ordinary designs, plus (for every property) the accept families and the injected-defect stream:
+        # on the unchanged tree an injected design is rejected (a cheap observation); if it unexpectedly
+        # elaborates it is simulated and `pid`'s monitor decides with a concrete valuation.
+        special = {"C01": ["aliasDouble", "doubleCall"], "C02": ["sameTransMixed", "sameTransConflict"]}.get(pid)
+        if r == 8 and special:
+            d = designgen.gen_injected(rng, P, special[q % 2])
+        elif r == 9 and special:
+            d = designgen.gen_accept_case(rng, P, "alias_alts" if pid == "C01" else "same_trans_excl")
+        elif r == 10:
+            d = designgen.gen_accept_case(rng, P, AK[q % len(AK)])
         elif r == 11:
-            d = designgen.gen_injected(rng, P, designgen.INJECT_KINDS[(index // 12) % 6])
+            d = designgen.gen_injected(rng, P, IK[q % len(IK)])
         else:
             d = designgen.gen_valid(rng, P)
     d["id"] = f"{pid}/{seed}/{index}"
